@@ -31,9 +31,11 @@ inductive SeqOp (α : Type) where
   | eraseRange (r a b : Nat)                    -- r.erase(begin+a, begin+b)
   | swap (r q : Nat)                            -- r.swap(q)
   | setAt (r i : Nat) (x : α)                   -- r[i] = x
+  | setAtRev (r i : Nat) (x : α)                -- *(r.rbegin() + i) = x
   | obs (r : Nat)                               -- to_string(r) / size() / iteration: an observation, changes nothing
   | moveS (r q : Nat)                           -- r = std::move(q); q = string{}   (nothing when r = q)
   | obsNone (r : Nat)                           -- r = r (self-assignment): changes nothing
+  | obs2 (r q : Nat)                            -- r == q, r < q, r <=> q, hashes: an observation of two registers
 deriving Repr
 
 abbrev Regs (α : Type) := Nat → List α
@@ -57,9 +59,11 @@ def SeqOp.apply {α} (g : Regs α) : SeqOp α → Regs α
   | .eraseRange r a b => if a ≤ b ∧ b ≤ (g r).length then g.put r ((g r).take a ++ (g r).drop b) else g
   | .swap r q => (g.put r (g q)).put q (g r)
   | .setAt r i x => if i < (g r).length then g.put r ((g r).set i x) else g
+  | .setAtRev r i x => if i < (g r).length then g.put r ((g r).set ((g r).length - 1 - i) x) else g
   | .obs _ => g
   | .moveS r q => if r = q then g else (g.put r (g q)).put q []
   | .obsNone _ => g
+  | .obs2 _ _ => g
 
 def SeqOp.run {α} (g : Regs α) (ops : List (SeqOp α)) : Regs α := ops.foldl SeqOp.apply g
 
@@ -76,9 +80,11 @@ def SeqOp.map {α β} (f : α → β) : SeqOp α → SeqOp β
   | .eraseRange r a b => .eraseRange r a b
   | .swap r q => .swap r q
   | .setAt r i x => .setAt r i (f x)
+  | .setAtRev r i x => .setAtRev r i (f x)
   | .obs r => .obs r
   | .moveS r q => .moveS r q
   | .obsNone r => .obsNone r
+  | .obs2 r q => .obs2 r q
 
 def Regs.map {α β} (f : α → β) (g : Regs α) : Regs β := fun r => (g r).map f
 
